@@ -36,7 +36,7 @@ structure St where
   natLog  : List (Nat × List Val)          -- native callback log (callback id, argument values)
   natCount : Nat
   fault   : Fault
-  tags    : List Nat := []                 -- known-finding rules that fired (1 = a named, return-flagged value adopted by `var x = y`)
+  tags    : List Nat := []                 -- known-finding rules that fired (1 = a named, return-flagged value adopted by `var x = y`; 2 = a stale lookup hint answered)
 deriving Repr, Inhabited
 
 /-- initial state: one const Data per literal/builtin object -/
@@ -89,13 +89,18 @@ def St.addObject (s : St) (x : Name) (l : Loc) : Option St :=
     if sc.any (fun p => p.1 == x) then none
     else some { s with stacks := modifyLast (modifyLast (· ++ [(x, l)])) s.stacks }
 
+/-- first slot of a scope holding the name: (slot, loc) -/
+def slotOf (x : Name) : Scope → Nat → Option (Nat × Loc)
+  | [], _ => none
+  | (y, l) :: rest, i => if y == x then some (i, l) else slotOf x rest (i + 1)
+
 /-- innermost-first search of the current stack: (distance from top, slot, loc) -/
 def findLocal (x : Name) : List Scope → Nat → Option (Nat × Nat × Loc)
   | [], _ => none
   | sc :: outer, d =>
-    match sc.findIdx? (fun p => p.1 == x), sc.find? (fun p => p.1 == x) with
-    | some i, some p => some (d, i, p.2)
-    | _, _ => findLocal x outer (d + 1)
+    match slotOf x sc 0 with
+    | some (i, l) => some (d, i, l)
+    | none => findLocal x outer (d + 1)
 
 def St.lookupLocal (s : St) (x : Name) : Option (Nat × Nat × Loc) := findLocal x s.curStack.reverse 0
 
@@ -121,23 +126,39 @@ def St.nonLocal (s : St) (x : Name) : Resolved :=
 
 def setHint (nid : Nat) (h : Hint) (hs : List (Nat × Hint)) : List (Nat × Hint) := (nid, h) :: hs.filter (·.1 != nid)
 
+/-- the hint a successful uncached search records -/
+def St.hintFor (s : St) (x : Name) : Hint :=
+  match s.lookupLocal x with
+  | some (d, i, _) => .local_ d i
+  | none => .nonLocal
+
+/-- the uncached search of `get_object` (`loc == 0`): it IS the specification; with caching on it records where it found the name -/
+def St.cold (s : St) (nid : Nat) (x : Name) : Resolved × St :=
+  (s.resolve x, if s.useHints then { s with hints := setHint nid (s.hintFor x) s.hints } else s)
+
+def St.dropHint (s : St) (nid : Nat) : St := { s with hints := s.hints.filter (·.1 != nid) }
+
+/-- the entry at (scope distance from the top, slot) of the current stack -/
+def St.slotAt (s : St) (d i : Nat) : Option (Name × Loc) := (s.curStack.reverse[d]?).bind (·[i]?)
+
 /-- `Dispatch_Engine::get_object` with its per-node hint -/
-def St.getObject (s : St) (nid : Nat) (x : Name) : Resolved × St :=
-  let cold (s : St) : Resolved × St :=
-    match s.lookupLocal x with
-    | some (d, i, l) => (.cell l, if s.useHints then { s with hints := setHint nid (.local_ d i) s.hints } else s)
-    | none => (s.nonLocal x, if s.useHints then { s with hints := setHint nid .nonLocal s.hints } else s)
-  if !s.useHints then cold s
+def St.getObjectRaw (s : St) (nid : Nat) (x : Name) : Resolved × St :=
+  if !s.useHints then s.cold nid x
   else match s.hints.lookup nid with
-    | none => cold s
+    | none => s.cold nid x
     | some .nonLocal => (s.nonLocal x, s)
     | some (.local_ d i) =>
-      let st := s.curStack.reverse
-      match st[d]? with
-      | some sc =>
-        (match sc[i]? with
-         | some (y, l) => if !s.verifySlot || y == x then (.cell l, s) else cold { s with hints := s.hints.filter (·.1 != nid) }
-         | none => if s.verifySlot then cold { s with hints := s.hints.filter (·.1 != nid) } else (.missing, s))
-      | none => if s.verifySlot then cold { s with hints := s.hints.filter (·.1 != nid) } else (.missing, s)
+      match s.slotAt d i with
+      | some (y, l) => if !s.verifySlot || y == x then (.cell l, s) else (s.dropHint nid).cold nid x
+      | none => if s.verifySlot then (s.dropHint nid).cold nid x else (.missing, s)
+
+/-- `get_object`, instrumented: tag 2 records that the cached hint answered differently from the specification
+    `resolve` (known-finding rule STALE_LOOKUP_HINT); the answer itself is the implementation's -/
+def St.getObject (s : St) (nid : Nat) (x : Name) : Resolved × St :=
+  let r := s.getObjectRaw nid x
+  if r.1 = s.resolve x then r else (r.1, { r.2 with tags := 2 :: r.2.tags })
+
+/-- the nodes of a freshly parsed text have no hints yet -/
+def St.dropHints (s : St) (nids : List Nat) : St := { s with hints := s.hints.filter (fun h => !nids.contains h.1) }
 
 end ChaiVerif.Chai
